@@ -180,6 +180,8 @@ var (
 	reAlter    = regexp.MustCompile(`^ALTER TABLE ((?:` + reIdent + `\.)?` + reIdent + `) (.*)$`)
 	reAddFK    = regexp.MustCompile(`ADD CONSTRAINT (` + reIdent + `) FOREIGN KEY \([^)]*\) REFERENCES ((?:` + reIdent + `\.)?` + reIdent + `)`)
 	reDropFK   = regexp.MustCompile(`DROP (?:FOREIGN KEY|CONSTRAINT) (` + reIdent + `)`)
+	reAddChk   = regexp.MustCompile(`ADD (?:CONSTRAINT (` + reIdent + `) )?CHECK \(`)
+	reDropChk  = regexp.MustCompile(`DROP (?:CONSTRAINT|CHECK) (` + "[`\"]ck_[a-z0-9_]+[`\"]" + `)`)
 	reDropT    = regexp.MustCompile(`^DROP TABLE (?:IF EXISTS )?((?:` + reIdent + `\.)?` + reIdent + `)`)
 	reCommentCol = regexp.MustCompile(`COMMENT ON COLUMN (` + reIdent + `(?:\.` + reIdent + `){1,2})`)
 	reIdentOnly  = regexp.MustCompile(reIdent)
@@ -271,7 +273,27 @@ func events(cid int, cmd string) []ev {
 			e["t"], e["p"], e["n"] = t, p, unq(m[2][ix[2]:ix[3]])
 			hits = append(hits, hit{ix[0], e})
 		}
+		for _, ix := range reAddChk.FindAllStringSubmatchIndex(m[2], -1) {
+			e := base("addcheck")
+			name := ""
+			if ix[2] >= 0 {
+				name = unq(m[2][ix[2]:ix[3]])
+			}
+			if name == "" {
+				name = "unnamed"
+			}
+			e["t"], e["n"] = t, name
+			hits = append(hits, hit{ix[0], e})
+		}
+		for _, ix := range reDropChk.FindAllStringSubmatchIndex(m[2], -1) {
+			e := base("dropcheck")
+			e["t"], e["n"] = t, unq(m[2][ix[2]:ix[3]])
+			hits = append(hits, hit{ix[0], e})
+		}
 		for _, ix := range reDropFK.FindAllStringSubmatchIndex(m[2], -1) {
+			if strings.HasPrefix(unq(m[2][ix[2]:ix[3]]), "ck_") {
+				continue // a check constraint (named ck_* by the harness), handled above
+			}
 			e := base("dropfk")
 			e["t"], e["n"] = t, unq(m[2][ix[2]:ix[3]])
 			hits = append(hits, hit{ix[0], e})
@@ -383,7 +405,7 @@ func runScenario(dialect string, n int, edges [][2]int, roles, req string, updow
 			}
 		}
 	}
-	emit(ev{"ev": "end", "c": sc.ID, "mustreject": false})
+	emit(ev{"ev": "end", "c": sc.ID, "mustreject": false, "checksmatter": false, "wantchecks": [][2]string{}})
 	sc.Last = line
 }
 
@@ -399,6 +421,7 @@ func main() {
 		updown = flag.Bool("updown", false, "also replay the reverse statements (C17 catalogue level)")
 		random = flag.Int("random", 0, "additionally N random graphs over up to 8 tables")
 		qual   = flag.Bool("qual", false, "C16 scenarios only")
+		chks   = flag.Bool("checks", false, "C17: up/down of CHECK constraint changes at catalogue level")
 	)
 	flag.Parse()
 	f, err := os.Create(*outp)
@@ -406,6 +429,15 @@ func main() {
 		panic(err)
 	}
 	out = bufio.NewWriterSize(f, 1<<20)
+	if *chks {
+		runChecks()
+		out.Flush()
+		f.Close()
+		b, _ := json.Marshal(cases)
+		os.WriteFile(*casesp, b, 0o644)
+		fmt.Printf("{\"cases\": %d, \"events\": %d}\n", len(cases), line)
+		return
+	}
 	if *qual {
 		runQual()
 		out.Flush()
